@@ -122,6 +122,9 @@ def problem(mjm, m, d, w, rows=None):
   P["type"] = np.asarray(rows["type"], dtype=int)
   P["id"] = np.asarray(rows["id"], dtype=int)
   P["state"] = np.asarray(rows["state"], dtype=int)
+  # rows whose Jacobian is identically zero cannot influence qacc: their cost is a constant (possibly 1e17 with
+  # D = 1/mjMINVAL) and is left out of the cost so that it does not swamp float64 differences
+  P["inert"] = ~np.any(P["J"] != 0, axis=1) if n else np.zeros(0, dtype=bool)
   P["M"] = mw.dense_M(mjm, np.asarray(mw.npy(d.M)[w]).reshape(-1))
   for k in ("qacc", "qacc_smooth", "qfrc_smooth", "qfrc_constraint"):
     P[k] = np.asarray(mw.npy(getattr(d, k))[w], dtype=np.float64)[:nv]
@@ -171,6 +174,7 @@ def law(P, jar, want_hess=False):
   """
   t, D, fl = P["type"], P["D"], P["frictionloss"]
   n = P["n"]
+  live = ~P["inert"]  # weights of the cost terms (forces are still reported for inert rows)
   force = np.zeros(n)
   state = np.zeros(n, dtype=int)
   cost = 0.0
@@ -179,7 +183,7 @@ def law(P, jar, want_hess=False):
   force[eq] = -D[eq] * jar[eq]
   state[eq] = S_QUAD
   dact[eq] = D[eq]
-  cost += 0.5 * float(np.sum(D[eq] * jar[eq] ** 2))
+  cost += 0.5 * float(np.sum((D * jar**2)[eq & live]))
   fr = (t == T_FDOF) | (t == T_FTEN)
   if fr.any():
     rf = np.where(D[fr] > 0, fl[fr] / np.where(D[fr] > 0, D[fr], 1.0), 0.0)
@@ -192,7 +196,7 @@ def law(P, jar, want_hess=False):
     c = np.where(neg, -fl[fr] * (0.5 * rf + j), np.where(pos, -fl[fr] * (0.5 * rf - j), 0.5 * D[fr] * j * j))
     force[fr] = f
     state[fr] = s
-    cost += float(c.sum())
+    cost += float(c[live[fr]].sum())
     dd = np.zeros(int(fr.sum()))
     dd[mid] = D[fr][mid]
     dact[fr] = dd
@@ -201,7 +205,7 @@ def law(P, jar, want_hess=False):
   force[act] = -D[act] * jar[act]
   state[act] = S_QUAD
   dact[act] = D[act]
-  cost += 0.5 * float(np.sum(D[act] * jar[act] ** 2))
+  cost += 0.5 * float(np.sum((D * jar**2)[act & live]))
   hc = []
   i0 = P["cone_idx0"]
   if i0.size:
@@ -221,7 +225,8 @@ def law(P, jar, want_hess=False):
       force[rs] = -D[rs] * jar[rs]
       state[rs] = S_QUAD
       dact[rs] = D[rs]
-      cost += 0.5 * float(np.sum(D[rs] * jar[rs] ** 2))
+      if live[rs[0]]:
+        cost += 0.5 * float(np.sum(D[rs] * jar[rs] ** 2))
     for c in np.nonzero(top)[0]:
       rs = [i0[c]] + [r for r in iT[c] if r >= 0]
       state[rs] = S_SAT
@@ -234,7 +239,8 @@ def law(P, jar, want_hess=False):
       force[rs[0]] = f0
       force[rs[1:]] = -(f0 / T[c]) * U[c][:k] * frc[c][:k]
       state[rs] = S_CONE
-      cost += 0.5 * Dm * r * r
+      if live[rs[0]]:
+        cost += 0.5 * Dm * r * r
       if want_hess:
         g = np.zeros(k + 1)
         g[0] = mu[c]
@@ -325,15 +331,19 @@ def solve64(P, a0, iters=60):
   return a, {"cost": cost, "grad": g, "gradnorm": gn, "H": H, "force": force, "state": state, "jar": jar, "iters": it + 1}
 
 
-def noise_terms(P, a, force):
+def noise_terms(P, a, force, start=None):
   """Componentwise magnitude of the terms that a float32 evaluation of jar and of the gradient adds up.
 
   jar_mag[r] = |J_r||a| + |aref_r|                       (round-off of jar is ~ eps32 * depth * jar_mag)
   grad_mag[i] = (|M||a|)_i + |qfrc_smooth|_i + sum_r |J_ri| (|f_r| + D_r jar_mag_r)
   """
   aJ = np.abs(P["J"])
-  jar_mag = aJ @ np.abs(a) + np.abs(P["aref"])
-  grad_mag = np.abs(P["M"]) @ np.abs(a) + np.abs(P["qfrc_smooth"]) + aJ.T @ (np.abs(force) + P["D"] * jar_mag)
+  # Jaref and Ma are updated incrementally from the starting point of the solve, so their round-off carries the
+  # magnitude of the largest iterate (a hostile warmstart of 1e4 leaves ~1e4*eps32 in jar for the rest of the solve)
+  amag = np.abs(a) if start is None else np.maximum(np.abs(a), np.abs(start))
+  jar_mag = aJ @ amag + np.abs(P["aref"])
+  live = ~P["inert"]
+  grad_mag = np.abs(P["M"]) @ amag + np.abs(P["qfrc_smooth"]) + aJ.T @ ((np.abs(force) + P["D"] * jar_mag) * live)
   return jar_mag, grad_mag
 
 
@@ -342,7 +352,7 @@ def noise_terms(P, a, force):
 ADM_REL = 1e-4  # float32 allowance for cone membership (relative to the normal force)
 
 
-def admissibility(rec, mjm, m, d, w, rows=None, contact_force=True, sig_prefix=""):
+def admissibility(rec, mjm, m, d, w, rows=None, contact_force=True, sig_prefix="", start=None):
   """C24: physical admissibility of the reported constraint forces of world w (after forward/step).
 
   Returns the number of rows looked at. Violations are recorded on rec with mechanism signatures.
@@ -456,7 +466,15 @@ def admissibility(rec, mjm, m, d, w, rows=None, contact_force=True, sig_prefix="
   Ma = np.asarray(mw.npy(d.efc.Ma)[w], dtype=np.float64)[: mjm.nv]
   qs = np.asarray(mw.npy(d.qfrc_smooth)[w], dtype=np.float64)[: mjm.nv]
   # Newton/pyramidal reconstructs qfrc_constraint as Ma - qfrc_smooth - grad: its round-off scales with those terms
-  bound = 64 * EPS32 * (mag + np.abs(Ma) + np.abs(qs)) + 1e-6 * max(1.0, float(np.abs(jtf).max()))
+  # (Ma and Jaref are accumulated from the start point of the solve: `start` = |warmstart| widens the floor accordingly)
+  extra = 0.0
+  if start is not None:
+    Md = mw.dense_M(mjm, np.asarray(mw.npy(d.M)[w]).reshape(-1))
+    sa = np.abs(np.asarray(start, dtype=np.float64))[: mjm.nv]
+    D = np.asarray(rows["D"], dtype=np.float64)
+    live = np.any(J != 0, axis=1)
+    extra = np.abs(Md) @ sa + np.abs(J).T @ (D * (np.abs(J) @ sa) * live)
+  bound = 64 * EPS32 * (mag + np.abs(Ma) + np.abs(qs) + extra) + 1e-6 * max(1.0, float(np.abs(jtf).max()))
   if not np.all(np.isfinite(qc)):
     rec.viol(sig_prefix + "qfrc_constraint:nonfinite", f"qfrc_constraint not finite {ctx}")
   else:
@@ -499,6 +517,7 @@ def problem_mj(mjm, mjd):
   P["type"] = np.asarray(rows["type"], dtype=int)
   P["id"] = np.asarray(rows["id"], dtype=int)
   P["state"] = np.asarray(rows["state"], dtype=int)
+  P["inert"] = ~np.any(P["J"] != 0, axis=1) if n else np.zeros(0, dtype=bool)
   P["M"] = mw.dense_M(mjm, np.array(mjd.M))
   for k in ("qacc", "qacc_smooth", "qfrc_smooth", "qfrc_constraint"):
     P[k] = np.array(getattr(mjd, k), dtype=np.float64)
